@@ -274,7 +274,7 @@ func classesOf(res *Result) []string {
 		if res.TimedOut {
 			cs = append(cs, "hang-watchdog")
 		} else {
-			cs = append(cs, "worker-died:"+PanicLine(res.Stderr))
+			cs = append(cs, strings.ReplaceAll("worker-died:"+PanicLine(res.Stderr), " ", "_"))
 		}
 	}
 	for _, v := range res.Viol {
